@@ -24,7 +24,7 @@ ASSUMPTIONS = ["removed parameters are ones the body does not read; added parame
 BUDGET = {"quick": (3000, 240), "thorough": (51000, 900)}
 EXHAUSTIVE = {}
 CASE_TIMEOUT = 300
-REQUIRE = {"performed_and_run": 300}
+REQUIRE = {"performed_and_run": 300, "introduce_performed_and_run": 100}
 TECHNIQUE = ("differential execution of generated programs whose functions return their bound parameters "
              "(output equality = per-parameter value equality), refusal checked against rope's error hierarchy")
 LEVEL_TEXT = ("Each request is performed by the real code on a generated multi-module program and the result is "
@@ -38,6 +38,8 @@ def cases(tier, seed):
     i = 0
     while True:
         yield {"seed": f"{seed}/C06/{i}"}
+        if i % 5 == 0:
+            yield {"seed": f"{seed}/C06/introduce/{i}", "introduce": 1}
         i += 1
 
 
@@ -270,7 +272,82 @@ def build_changers(seq, args):
     return out
 
 
+def gen_introduce_project(rnd):
+    """Small program for IntroduceParameter: a function (top-level / method / one-liner / nested) that reads a
+    module global or an attribute chain, followed by module-level code (with or without a blank line, starting
+    with the same name or another one), used from a client.  Returns (files, offset of the expression, meta)."""
+    expr = rnd.choice(["items", "conf.size", "conf.inner.depth"])
+    host = rnd.choice(["function", "function", "method", "one-liner", "nested"])
+    gap = rnd.choice(["", "", "\n", "# note\n"])
+    after = rnd.choice(["same-name", "same-name", "other-name", "nothing"])
+    L = ["class Inner:", "    depth = 2", "", "class Conf:", "    size = 5", "    inner = Inner()", "",
+         "conf = Conf()", "items = [1, 2]", ""]
+    use = {"items": "sum(items)", "conf.size": "conf.size * 2", "conf.inner.depth": "conf.inner.depth + 1"}[expr]
+    twice = {"items": "len(items)", "conf.size": "conf.size", "conf.inner.depth": "conf.inner.depth"}[expr]
+    if host == "function":
+        L += ["def total(k=1):", f"    first = {use} + k", f"    return first + {twice}"]
+    elif host == "one-liner":
+        L += [f"def total(k=1): return {use} + k + {twice}"]
+    elif host == "nested":
+        L += ["def outer():", "    def total(k=1):", f"        return {use} + k + {twice}", "    return total"]
+    else:
+        L += ["class Calc:", "    def total(self, k=1):", f"        first = {use} + k", f"        return first + {twice}"]
+    text = "\n".join(L) + "\n" + gap
+    # (a default is evaluated when the def statement runs: nothing may REBIND the expression afterwards)
+    follow = {"items": "items.append(3)", "conf.size": "conf.size", "conf.inner.depth": "conf.inner.depth"}[expr]
+    if after == "same-name":
+        text += follow + "\n"
+    elif after == "other-name":
+        text += "marker = 1\n" + follow + "\n"
+    call = {"function": "lib.total()", "one-liner": "lib.total(2)", "nested": "lib.outer()()", "method": "lib.Calc().total(3)"}[host]
+    files = {"lib.py": text,
+             "client.py": f"import lib\n\nprint('before', {call})\nlib.items.append(10)\nprint('after', {call})\n",
+             "main.py": "import client\n", "import_all.py": "import lib, client\n"}
+    # the expression inside the function body (first occurrence after the def line)
+    body_start = text.index("def total")
+    off = text.index(use.split(" ")[0].split("(")[-1], body_start + 10)
+    if expr != "items":
+        off = text.index(expr, body_start + 10) + len(expr) - 1   # on the last attribute of the chain
+    return files, off, {"expr": expr, "host": host, "gap": repr(gap), "after": after}
+
+
+def run_introduce(spec):
+    """IntroduceParameter: the new parameter defaults to the expression, so every call still computes the same."""
+    from rope.refactor.introduce_parameter import IntroduceParameter
+    res = core.Result()
+    rnd = core.rng(spec)
+    files, off, meta = gen_introduce_project(rnd)
+    with core.Scratch() as tmp:
+        case = behave.Case.__new__(behave.Case)
+        case.root, case.files = tmp + "/p", files
+        import os
+        os.makedirs(case.root)
+        pyrun.write_project(case.root, files)
+        case.baseline = pyrun.behaviour(case.root)
+        if not all(b[0] == 0 for b in case.baseline):
+            res.ev("discarded_invalid_projects")
+            res.outcome("discarded")
+            res.sample({"discarded": files, "baseline": [b[2] for b in case.baseline]})
+            return res
+        res.ev("introduce_projects")
+
+        def request(project):
+            return IntroduceParameter(project, project.get_file("lib.py"), off).get_changes("fresh_p")
+        feats = f"core|expr={meta['expr']}|host={meta['host']}"
+        out = behave.judge(case, request, res, "introduce-parameter", feats,
+                           detail={"files": files, "meta": meta, "offset": off})
+        if out in ("preserved", "violation"):
+            res.ev("introduce_performed_and_run")
+            res.shape(["introduce", meta["expr"], meta["host"], meta["gap"], meta["after"], out])
+        elif out == "refused":
+            res.ev("introduce_refused")
+        res.sample({"meta": meta})
+    return res
+
+
 def run_case(spec):
+    if spec.get("introduce"):
+        return run_introduce(spec)
     from rope.refactor.change_signature import ChangeSignature
     res = core.Result()
     rnd = core.rng(spec)
